@@ -40,7 +40,10 @@ def strategy(tier):
         n = draw(st.integers(2 if layout == "matrix" else 1, 12))
         p = draw(st.integers(2, 3)) if layout == "matrix" else 1
         count = kind in ("Poisson", "NegBinom")
-        y = [[draw(st.integers(0 if count else 1, 60)) if count else draw(S.fl(0.05, 50.0, 4)) for _ in range(p)] for _ in range(n)]
+        # observations may arrive as an integer typed array (counts, e.g. from np.random.poisson) for any kernel
+        y_dtype = draw(st.sampled_from(["float", "float", "int"]))
+        whole = count or y_dtype == "int"
+        y = [[draw(st.integers(0 if count else 1, 60)) if whole else draw(S.fl(0.05, 50.0, 4)) for _ in range(p)] for _ in range(n)]
         yhat = [[draw(S.fl(0.05, 60.0, 4)) for _ in range(p)] for _ in range(n)]
         sform = draw(st.sampled_from(["default", "scalar", "array", "special"]))
         spread = None
@@ -53,7 +56,7 @@ def strategy(tier):
                 spread = {"Normal": 1.0, "Gamma": 2.0, "NegBinom": 1.0}[kind]
         wform = draw(st.sampled_from(["none", "none", "array"])) if kind in ("Square", "Normal") else "none"
         w = [[draw(S.fl(0.1, 3.0, 3)) for _ in range(p)] for _ in range(n)] if wform == "array" else None
-        return {"kind": kind, "layout": layout, "y": y, "yhat": yhat, "spread": spread, "weights": w}
+        return {"kind": kind, "layout": layout, "y": y, "yhat": yhat, "spread": spread, "weights": w, "y_dtype": y_dtype}
     return case()
 
 
@@ -85,7 +88,11 @@ def oracle(case, rec):
     kw = {}
     if kind in ("Normal", "Gamma", "NegBinom") and spread is not None:
         kw[{"Normal": "sigma", "Gamma": "shape", "NegBinom": "k"}[kind]] = sp_arr if sp_arr is not None else spread
-    obj = call(key + "/construct", case, cls, y.copy(), w.copy() if w is not None else None, **kw)
+    y_arg = y.copy()
+    if case.get("y_dtype") == "int" and np.all(y == np.rint(y)):
+        y_arg = np.rint(y).astype(np.int64)
+        rec.label("y:int-typed")
+    obj = call(key + "/construct", case, cls, y_arg, w.copy() if w is not None else None, **kw)
     default = {"Normal": 1.0, "Gamma": 2.0, "NegBinom": 1.0}.get(kind)
     yf = y.reshape(-1)
     mf = yhat.reshape(-1) if layout != "matrix" else yhat.reshape(-1)
